@@ -234,6 +234,11 @@ def device_cases(draw):
         spec["max_layout_traps"] = max(spec["max_layout_traps"], spec["min_layout_traps"])
     if spec["type"] == "physical" and draw(st.booleans()):
         spec["accepts_new_layouts"] = draw(st.booleans())
+    for dm_ in spec.get("dmms", []):
+        # limits of exactly 0 are defined limits (not the same as leaving them undefined)
+        if draw(st.integers(0, 4)) == 0:
+            dm_["total_bottom_detuning"] = 0.0
+            dm_["bottom_detuning"] = draw(st.sampled_from([0.0, 0.0, None])) if spec["type"] != "physical" else 0.0
     for c in spec["channels"]:
         if draw(st.integers(0, 3)) == 0 and c["addr"] == "Global":
             c["propagation_dir"] = draw(st.sampled_from([[0.0, 1.0, 0.0], [1.0, 0.0, 0.0], [1.0, 1.0, 0.0]]))
